@@ -308,6 +308,10 @@ class C17(Prop):
     def judge(self, op, args, real, model, driver):
         if op == "meta.run":
             data = dec_dict(args[3])
+            try:
+                _typed(data)         # only inputs inside the law's domain can be judged by it
+            except Exception:
+                return None
             return ("from_raw_iff_fields_valid", {"data": [[a, b] for a, b in data.items()]})
         return None
 
